@@ -695,13 +695,15 @@ theorem addMethods_snd {w : U → Nat → Option Name → Option (U × Nat)} (v2
 /-- **declared_type_is_registered**: walking a non-generic named type (whose underlying node is an unnamed type
 node, as go/types guarantees) returns the object registered under the type's own name -/
 theorem walk_named_idx (bt : List Builtin) (F : Facts) (v2 : Bool) (fuel : Nat) (u : U) (g : Nat) (un : Option Name)
-    (und : Nat) (ms : List GMethod) (origUnd : Nat) (hn : F.node g = .named und ms [] origUnd)
+    (und : Nat) (ms : List GMethod) (tps : List (Str × Nat)) (origUnd : Nat) (hn : F.node g = .named und ms tps origUnd)
     (hund : isAliasUnder (F.node und) = true ∨ ∃ K kids, shape v2 (F.node und) = some (K, kids))
     (horig : isAliasUnder (F.node und) = false → (v2 && isStructOrIface (F.node und)) = true → ∃ K kids, shape v2 (F.node origUnd) = some (K, kids))
     (u' : U) (o : Nat) (h : Inv bt u) (hw : walk bt F v2 (fuel + 1) u g un = some (u', o)) :
-    AL.lookup (nameOf v2 (F.str g)) u'.types = some o := by
+    AL.lookup (regName F v2 g) u'.types = some o := by
   have ih := walk_inv bt F v2 fuel
   simp only [walk, hn] at hw
+  unfold regName
+  simp only [hn]
   -- a walk of an unnamed type node under a given name returns the object registered under that name
   have shapeWalk : ∀ (c : Nat) (n : Name) (u1 u2 : U) (o2 : Nat), (∃ K kids, shape v2 (F.node c) = some (K, kids)) →
       Inv bt u1 → walk bt F v2 fuel u1 c (some n) = some (u2, o2) → AL.lookup n u2.types = some o2 := by
@@ -723,6 +725,9 @@ theorem walk_named_idx (bt : List Builtin) (F : Facts) (v2 : Bool) (fuel : Nat) 
         exact fill_idx ihf u1 n c _ K kids u2 o2 h1 hw2
   by_cases ha : isAliasUnder (F.node und) = true
   · simp only [ha, if_true] at hw
+    have hnm : (if isAliasUnder (F.node und) = false ∧ (v2 && isStructOrIface (F.node und)) = true ∧ tps.isEmpty = false
+        then genericName (nameOf v2 (F.str g)) tps else nameOf v2 (F.str g)) = nameOf v2 (F.str g) := by simp [ha]
+    rw [hnm]
     obtain ⟨h1, g1, l1⟩ := type_inv (bt := bt) (nameOf v2 (F.str g)) h
     by_cases hk : (U.type bt u (nameOf v2 (F.str g))).1.kind (U.type bt u (nameOf v2 (F.str g))).2 ≠ .unknown
     · simp only [hk, ne_eq, not_false_eq_true, if_true, Option.some.injEq] at hw
@@ -753,31 +758,52 @@ theorem walk_named_idx (bt : List Builtin) (F : Facts) (v2 : Bool) (fuel : Nat) 
       · exact absurd h ha
       · exact h
     by_cases hs : (v2 && isStructOrIface (F.node und)) = true
-    · simp only [hs, if_true, List.map_nil, runKids, List.isEmpty_nil] at hw
-      by_cases hk : (U.type bt u (nameOf v2 (F.str g))).1.kind (U.type bt u (nameOf v2 (F.str g))).2 ≠ .unknown
-      · simp only [hk, ne_eq, not_false_eq_true, if_true, Option.some.injEq] at hw
-        obtain ⟨_, _, l1⟩ := type_inv (bt := bt) (nameOf v2 (F.str g)) h
-        have e1 : (U.type bt u (nameOf v2 (F.str g))).1 = u' := by rw [hw]
-        have e2 : (U.type bt u (nameOf v2 (F.str g))).2 = o := by rw [hw]
-        rw [e1, e2] at l1; exact l1
-      · simp only [hk, if_false] at hw
-        obtain ⟨h2, g2, _⟩ := type_inv (bt := bt) (nameOf v2 (F.str g)) h
-        cases hw2 : walk bt F v2 fuel (U.type bt u (nameOf v2 (F.str g))).1 origUnd (some (nameOf v2 (F.str g))) with
-        | none => simp [hw2] at hw
-        | some p =>
-          obtain ⟨u3, o3⟩ := p
-          simp only [hw2] at hw
-          have l3 := shapeWalk origUnd _ _ u3 o3 (horig (by simpa using ha) hs) h2 hw2
-          have p3 := ih _ _ _ _ _ h2 hw2
-          obtain ⟨h4, g4⟩ := modify_inv (o := o3) (f := fun ob => { ob with tparams := [] })
-            (fun ob _ => ⟨rfl, fun _ => rfl, fun r hr => .inl (by
-              simp only [refs, List.map_nil, List.append_nil, List.mem_append] at hr ⊢
-              exact .inl hr)⟩) p3.inv
-          have hoe := addMethods_snd v2 _ o3 ms u' o hw
-          have p5 := addMethods_inv ih v2 _ _ o3 ms u' o ⟨h4, Grows.refl _, p3.good.mono g4⟩ hw
-          rw [hoe]
-          exact p5.grows.idx _ _ (g4.idx _ _ l3)
+    · simp only [hs, if_true] at hw
+      have ha' : isAliasUnder (F.node und) = false := by simpa using ha
+      have hname : (if isAliasUnder (F.node und) = false ∧ (v2 && isStructOrIface (F.node und)) = true ∧ tps.isEmpty = false
+          then genericName (nameOf v2 (F.str g)) tps else nameOf v2 (F.str g)) =
+          (if tps.isEmpty = true then nameOf v2 (F.str g) else genericName (nameOf v2 (F.str g)) tps) := by
+        cases hte : tps.isEmpty <;> simp [ha', hs]
+      rw [hname]
+      cases hr0 : runKids (fun u c un => walk bt F v2 fuel u c un) 0 u (tps.map (fun tp => (tp.2, none, Setter.drop))) with
+      | none => simp [hr0] at hw
+      | some u1 =>
+        simp only [hr0] at hw
+        obtain ⟨h1, g1⟩ := runKids_inv ih 0 _ _ _ h hr0
+        generalize hnm : (if tps.isEmpty = true then nameOf v2 (F.str g) else genericName (nameOf v2 (F.str g)) tps) = n' at hw ⊢
+        by_cases hk : (U.type bt u1 n').1.kind (U.type bt u1 n').2 ≠ .unknown
+        · simp only [hk, ne_eq, not_false_eq_true, if_true, Option.some.injEq] at hw
+          obtain ⟨_, _, l1⟩ := type_inv (bt := bt) n' h1
+          have e1 : (U.type bt u1 n').1 = u' := by rw [hw]
+          have e2 : (U.type bt u1 n').2 = o := by rw [hw]
+          rw [e1, e2] at l1; exact l1
+        · simp only [hk, if_false] at hw
+          obtain ⟨h2, g2, _⟩ := type_inv (bt := bt) n' h1
+          cases hw2 : walk bt F v2 fuel (U.type bt u1 n').1 origUnd (some n') with
+          | none => simp [hw2] at hw
+          | some p =>
+            obtain ⟨u3, o3⟩ := p
+            simp only [hw2] at hw
+            have l3 := shapeWalk origUnd _ _ u3 o3 (horig ha' hs) h2 hw2
+            have p3 := ih _ _ _ _ _ h2 hw2
+            obtain ⟨h4, g4⟩ := modify_inv (o := o3) (f := fun ob => { ob with tparams := [] })
+              (fun ob _ => ⟨rfl, fun _ => rfl, fun r hr => .inl (by
+                simp only [refs, List.map_nil, List.append_nil, List.mem_append] at hr ⊢
+                exact .inl hr)⟩) p3.inv
+            cases hr5 : runKids (fun u c un => walk bt F v2 fuel u c un) o3 (u3.modify o3 (fun ob => { ob with tparams := [] }))
+                (tps.map (fun tp => (tp.2, none, Setter.tparam tp.1))) with
+            | none => simp [hr5] at hw
+            | some u5 =>
+              simp only [hr5] at hw
+              obtain ⟨h5, g5⟩ := runKids_inv ih o3 _ _ _ h4 hr5
+              have hoe := addMethods_snd v2 _ o3 ms u' o hw
+              have p5 := addMethods_inv ih v2 u5 u5 o3 ms u' o ⟨h5, Grows.refl _, p3.good.mono (g4.trans g5)⟩ hw
+              rw [hoe]
+              exact p5.grows.idx _ _ (g5.idx _ _ (g4.idx _ _ l3))
     · simp only [hs, Bool.false_eq_true, if_false] at hw
+      have hnm : (if isAliasUnder (F.node und) = false ∧ (v2 && isStructOrIface (F.node und)) = true ∧ tps.isEmpty = false
+          then genericName (nameOf v2 (F.str g)) tps else nameOf v2 (F.str g)) = nameOf v2 (F.str g) := by simp [hs]
+      rw [hnm]
       by_cases hk : (U.type bt u (nameOf v2 (F.str g))).1.kind (U.type bt u (nameOf v2 (F.str g))).2 ≠ .unknown
       · simp only [hk, ne_eq, not_false_eq_true, if_true, Option.some.injEq] at hw
         obtain ⟨_, _, l1⟩ := type_inv (bt := bt) (nameOf v2 (F.str g)) h
